@@ -36,7 +36,9 @@ Inductive op :=
 | OSnapGet (i : Z)            (* snap[i] *)
 | OForEach (b e : Z)          (* vector.for_each(b, e, cb) / fill_n / copy_n: reserved_snapshot(e).for_each(b, e) *)
 | OGc                         (* vector.gc() *)
-| OAdv (d : Z).               (* d seconds pass *)
+| OAdv (d : Z)                (* d seconds pass *)
+| OStep (d : Z).              (* adversary: the calendar (wall) clock is stepped by d seconds, forward or backward
+                                 (NTP step, date -s, VM resume); elapsed time is unaffected *)
 
 Inductive res :=
 | RElem (e : option elem)     (* None: index outside the table that was read (caller broke the contract) *)
@@ -79,7 +81,8 @@ Record st := {
   tables : list tinfo;
   bctor : list nat; bdtor : list nat; bst : list bstat;
   hword : Z; hnodes : list nat;
-  clock : Z;
+  clock : Z;                  (* elapsed (monotonic) seconds: CLOCK_MONOTONIC*, CLOCK_BOOTTIME *)
+  woff : Z;                   (* calendar clocks (CLOCK_REALTIME*, CLOCK_TAI) read clock + woff *)
   stale : bool; uaf : list (nat * Z * Z);
   threads : list thread
 }.
@@ -90,7 +93,7 @@ Definition mk_thread (p : list op) : thread := {| prog := p; opi := 0; tpc := Id
 
 Definition init (b : Z) (t0 : Z) (progs : list (list op)) : st :=
   {| bits := b; cur := 0%nat; tables := [empty_table]; bctor := []; bdtor := []; bst := []; hword := 0; hnodes := [];
-     clock := t0; stale := false; uaf := []; threads := map mk_thread progs |}.
+     clock := t0; woff := 0; stale := false; uaf := []; threads := map mk_thread progs |}.
 
 Fixpoint set_nth {A} (n : nat) (x : A) (l : list A) : list A :=
   match l, n with
@@ -109,19 +112,22 @@ Fixpoint nat_list_eqb (a b : list nat) : bool :=
 (* ---------------------------------------------------------------- record updates *)
 Definition upd_thread (s : st) (t : nat) (th : thread) : st :=
   {| bits := bits s; cur := cur s; tables := tables s; bctor := bctor s; bdtor := bdtor s; bst := bst s; hword := hword s;
-     hnodes := hnodes s; clock := clock s; stale := stale s; uaf := uaf s; threads := set_nth t th (threads s) |}.
+     hnodes := hnodes s; clock := clock s; woff := woff s; stale := stale s; uaf := uaf s; threads := set_nth t th (threads s) |}.
 Definition with_mem (s : st) (c : nat) (tb : list tinfo) (bc bd : list nat) (bs : list bstat) : st :=
   {| bits := bits s; cur := c; tables := tb; bctor := bc; bdtor := bd; bst := bs; hword := hword s; hnodes := hnodes s;
-     clock := clock s; stale := stale s; uaf := uaf s; threads := threads s |}.
+     clock := clock s; woff := woff s; stale := stale s; uaf := uaf s; threads := threads s |}.
 Definition with_head (s : st) (w : Z) (n : list nat) (stl : bool) : st :=
   {| bits := bits s; cur := cur s; tables := tables s; bctor := bctor s; bdtor := bdtor s; bst := bst s; hword := w; hnodes := n;
-     clock := clock s; stale := stl; uaf := uaf s; threads := threads s |}.
+     clock := clock s; woff := woff s; stale := stl; uaf := uaf s; threads := threads s |}.
 Definition with_clock (s : st) (c : Z) : st :=
   {| bits := bits s; cur := cur s; tables := tables s; bctor := bctor s; bdtor := bdtor s; bst := bst s; hword := hword s;
-     hnodes := hnodes s; clock := c; stale := stale s; uaf := uaf s; threads := threads s |}.
+     hnodes := hnodes s; clock := c; woff := woff s; stale := stale s; uaf := uaf s; threads := threads s |}.
+Definition with_woff (s : st) (w : Z) : st :=
+  {| bits := bits s; cur := cur s; tables := tables s; bctor := bctor s; bdtor := bdtor s; bst := bst s; hword := hword s;
+     hnodes := hnodes s; clock := clock s; woff := w; stale := stale s; uaf := uaf s; threads := threads s |}.
 Definition with_uaf (s : st) (u : list (nat * Z * Z)) : st :=
   {| bits := bits s; cur := cur s; tables := tables s; bctor := bctor s; bdtor := bdtor s; bst := bst s; hword := hword s;
-     hnodes := hnodes s; clock := clock s; stale := stale s; uaf := u; threads := threads s |}.
+     hnodes := hnodes s; clock := clock s; woff := woff s; stale := stale s; uaf := u; threads := threads s |}.
 
 Definition finish_op (th : thread) (r : res) : thread :=
   {| prog := prog th; opi := S (opi th); tpc := Idle; results := results th ++ [r]; snap := snap th |}.
@@ -228,6 +234,11 @@ Definition the_op (th : thread) : op := match cur_op th with Some o => o | None 
 
 Definition node_addr (k : nat) : Z := ((Z.of_nat k + 1) * 16) mod 2 ^ 47.
 Definition stamp_at (c : Z) : Z := current_unit c mod 2 ^ ts_bits.
+(* which clock get_current_timestamp reads: the regenerated clock id passed to clock_gettime.  Monotonic ids
+   (CLOCK_MONOTONIC 1, _RAW 4, _COARSE 6, BOOTTIME 7) read elapsed time; calendar ids (CLOCK_REALTIME 0, _COARSE 5, _ALARM 8,
+   TAI 11) read elapsed time + the offset the adversary steps *)
+Definition clock_is_monotonic (id : Z) : bool := (id =? 1) || (id =? 4) || (id =? 6) || (id =? 7).
+Definition tsrc (s : st) : Z := if clock_is_monotonic clock_id then clock s else clock s + woff s.
 
 Definition head_is (s : st) (hw : Z) (hn : list nat) : bool := Z.eqb (hword s) hw && nat_list_eqb (hnodes s) hn.
 
@@ -273,9 +284,10 @@ Definition step_thread (s : st) (t : nat) (th : thread) : option st :=
           else Some (upd_thread s t (finish_op th (RElem (read_elem s (tblocks ti) i))))
         end
       | OGc =>                                             (* _head.load(acquire); clock_gettime *)
-        if expire (hword s) (stamp_at (clock s)) then Some (upd_thread s t (goto th (GcCas (hword s) (hnodes s) (clock s))))
+        if expire (hword s) (stamp_at (tsrc s)) then Some (upd_thread s t (goto th (GcCas (hword s) (hnodes s) (tsrc s))))
         else Some (upd_thread s t (finish_op th RUnit))
       | OAdv d => Some (upd_thread (with_clock s (clock s + Z.max 0 d)) t (finish_op th RUnit))
+      | OStep d => Some (upd_thread (with_woff s (woff s + d)) t (finish_op th RUnit))
       end
     end
   | SlowCas bt nt bn expect =>                             (* _block_table.compare_exchange_strong(bt, nt) *)
@@ -294,7 +306,7 @@ Definition step_thread (s : st) (t : nat) (th : thread) : option st :=
         Some (upd_thread s2 t (finish_op th (complete s2 (the_op th) bt')))
       else Some (prepare s1 t th bt' nt false expect)
   | RetLoad old nt =>                                      (* RetireList::retire: _head.load(acquire); clock_gettime *)
-    let c0 := clock s in
+    let c0 := tsrc s in
     let ts := stamp_at c0 in
     let neww := make_head (node_addr old) ts in
     if expire (hword s) ts then Some (upd_thread s t (goto th (RetStrong old nt (hword s) (hnodes s) neww c0 c0)))
@@ -308,14 +320,14 @@ Definition step_thread (s : st) (t : nat) (th : thread) : option st :=
       Some (upd_thread s2 t (finish_op th (complete s2 (the_op th) nt)))
     else (* head reloaded by the failed CAS; loop body: next = get_node(head), clock re-read, new_head rebuilt *)
       Some (upd_thread s t (goto th (RetWeak old nt (hword s) (hnodes s)
-                                             (retry_new_head (node_addr old) (stamp_at (clock s))) (clock s) (clock s))))
+                                             (retry_new_head (node_addr old) (stamp_at (tsrc s))) (tsrc s) (tsrc s))))
   | RetWeak old nt hw hn neww c0 hclk =>                   (* compare_exchange_weak(head, new_head) *)
     if head_is s hw hn then
       let s1 := with_head s neww (old :: hn) (stale s || (current_unit c0 <? current_unit hclk)) in
       let s2 := with_mem s1 (cur s1) (set_nth old (set_tst (table s old) TListed) (tables s1)) (bctor s1) (bdtor s1) (bst s1) in
       Some (upd_thread s2 t (finish_op th (complete s2 (the_op th) nt)))
     else Some (upd_thread s t (goto th (RetWeak old nt (hword s) (hnodes s)
-                                                (retry_new_head (node_addr old) (stamp_at (clock s))) (clock s) (clock s))))
+                                                (retry_new_head (node_addr old) (stamp_at (tsrc s))) (tsrc s) (tsrc s))))
   | GcCas hw hn c1 =>                                      (* compare_exchange_strong(head, 0) *)
     if head_is s hw hn then
       let s1 := with_head s gc_new_head [] (stale s) in
